@@ -42,6 +42,8 @@ def handle (op : String) (args : List String) : Option String :=
         joinSp [showBool (M.Delta.eq a b), showOpt toString (M.Delta.partial_cmp a b), showBool (M.Delta.lt a b),
           showBool (M.Delta.le a b), showBool (M.Delta.gt a b), showBool (M.Delta.ge a b)]
       | _ => bad)
+  | "td.de", [s, n] => some (match ints? [s, n] with
+      | some [s, n] => showOD (M.Delta.deserialize s n) | _ => bad)
   | _, _ => none
 
 end Chrono.Drv.DeltaOps
